@@ -13,7 +13,7 @@ from ..runner import Collector, Outcome, hyp_run, hyp_shrink
 ID = "C03"
 LEVEL = "exploration"
 RULE = (
-    "case = (ordered supported-version list, preferred version, server answer, #notifications before the answer, tracked client or not); "
+    "case = (ordered supported-version list, preferred version, server answer, #notifications before the answer, tracked client or not, optionally a slow-reading server or a second handshake of the same process overlapping on another connection); "
     "enumerated exhaustively: all 258 non-empty lists of length<=3 (duplicates allowed) over a universe of 3 real + 3 invented versions x 8 preferred "
     "values (each universe member, None, '') x every answer class (each universe member, an unsupported well-formed date, 6 malformed results, "
     "JSON-RPC errors of each named code incl. -32602 with/without 'protocol version' text, silence); Hypothesis adds longer lists and arbitrary version strings; "
@@ -98,8 +98,46 @@ def check(case: Dict[str, Any]) -> Outcome:
     wire = build_answer(ans)
     if wire is not None:
         schedule.append((T_ANS, wire))
+    peer = case.get("peer")
+    peer_out: Dict[str, Any] = {}
+    side = None
+    if peer:
+        # another connection of the same process performs its own handshake while this one waits for its answer
+        async def side(res_, rec_):  # type: ignore[no-redef]
+            import asyncio as _a
+
+            import anyio as _anyio
+
+            await _a.sleep(peer["start"])
+            s_send, s_recv = _anyio.create_memory_object_stream(100)  # server -> client B
+            c_send, c_recv = _anyio.create_memory_object_stream(100)  # client B -> server
+            LB = list(peer["supported"])
+
+            async def responder():
+                from chuk_mcp.protocol.messages.json_rpc_message import parse_message
+
+                req_ = await c_recv.receive()
+                w_ = req_.model_dump(exclude_none=True)
+                await _a.sleep(0.02)
+                await s_send.send(parse_message({"jsonrpc": "2.0", "id": w_["id"], "result": good_result(w_["params"]["protocolVersion"])}))
+                while True:
+                    await c_recv.receive()
+
+            rt = _a.ensure_future(responder())
+            try:
+                rb = await send_initialize(s_recv, c_send, timeout=T, supported_versions=LB, preferred_version=peer.get("preferred"))
+                peer_out["returned"] = getattr(rb, "protocolVersion", None)
+            except BaseException as e_:  # noqa
+                peer_out["raised"] = e_
+                if isinstance(e_, _a.CancelledError):
+                    raise
+            finally:
+                rt.cancel()
+
     slow = case.get("slow_reader")
-    if slow:
+    if peer:
+        res = drive(call, schedule, side=side, max_vtime=T + 10)
+    elif slow:
         # the server reads the initialize request at once but is slow to read what follows
         # (unbuffered client->server stream, anyio's default capacity)
         res = drive(call, schedule, max_vtime=T + slow + 10, write_capacity=0, drain_delays={1: T_ANS + slow})
@@ -114,7 +152,15 @@ def check(case: Dict[str, Any]) -> Outcome:
         f"answer:{ans['kind']}" + (":" + ("in-list" if v in L else "not-in-list") if ans["kind"] == "version" else ""),
         "preferred:" + ("none" if not preferred else ("in-list" if preferred in L else "not-in-list")),
         "tracked" if tracked else "untracked",
-    ) + (("slow-reader",) if case.get("slow_reader") else ())
+    ) + (("slow-reader",) if case.get("slow_reader") else ()) + (("overlapping-handshake",) if peer else ())
+    if peer:
+        want_b = proposed_ref(list(peer["supported"]), peer.get("preferred"))
+        import asyncio as _a2
+
+        ended = "returned" in peer_out or ("raised" in peer_out and not isinstance(peer_out["raised"], _a2.CancelledError))
+        # (the harness stops the second handshake when the first one ends; only a finished one is judged)
+        if ended and peer_out.get("returned") != want_b:
+            out.fail("overlapping-handshake-on-another-connection-disturbed", f"peer list {peer['supported']} should settle on {want_b!r}: {peer_out!r}")
 
     # ---- the request
     writes = res.written
@@ -250,6 +296,8 @@ def cases(draw):
     case = {"supported": L, "preferred": preferred, "answer": ans, "pre_notifs": draw(st.integers(0, 3)), "tracked": draw(st.booleans())}
     if draw(st.integers(0, 3)) == 0:
         case["slow_reader"] = draw(st.sampled_from([0.3, 0.99, 1.0, 1.5, 4.0]))
+    elif draw(st.integers(0, 3)) == 0:
+        case["peer"] = {"supported": draw(st.lists(_ver, min_size=1, max_size=3)), "preferred": draw(st.one_of(st.none(), _ver)), "start": draw(st.sampled_from([0.0, 0.05, 0.1, 0.19]))}
     return case
 
 
@@ -257,13 +305,30 @@ def job_hyp(col: Collector, seed: int, tier: str, shard: int, n: int) -> None:
     hyp_run(col, seed * 1000 + shard, cases(), check, n)
 
 
-JOBS = {"enum": job_enum, "hyp": job_hyp}
+def job_overlap(col: Collector, seed: int, tier: str) -> None:
+    """two handshakes of one process overlapping in time on different connections: every list of length<=2 for the
+    first x every single-version list for the second x the first's server answering {its proposal, the second's proposal}."""
+    n = 0
+    for L in [l for l in all_lists() if len(l) <= 2]:
+        for vb in UNIVERSE:
+            for which in ("own", "peers"):
+                n += 1
+                if tier == "quick" and n % 3:
+                    continue
+                ans = {"kind": "version", "v": proposed_ref(L, None) if which == "own" else vb}
+                case = {"supported": L, "preferred": None, "answer": ans, "pre_notifs": 0, "tracked": bool(n % 2), "peer": {"supported": [vb], "start": 0.05 if n % 4 else 0.1}}
+                col.record(case, check(case))
+    if tier != "quick":
+        col.exhaustive_parts.append("overlapping handshakes: 42 lists (length<=2) x 6 peer versions x answer in {own proposal, the peer's proposal}")
+
+
+JOBS = {"enum": job_enum, "hyp": job_hyp, "overlap": job_overlap}
 
 
 def jobs(tier: str):
     if tier == "quick":
-        return [("enum", {"shard": s, "nshards": 15}) for s in range(15)] + [("hyp", {"shard": 0, "n": 500})]
-    return [("enum", {"shard": s, "nshards": 16}) for s in range(16)] + [("hyp", {"shard": s, "n": 2500}) for s in range(8)]
+        return [("enum", {"shard": s, "nshards": 15}) for s in range(15)] + [("hyp", {"shard": 0, "n": 500}), ("overlap", {})]
+    return [("enum", {"shard": s, "nshards": 16}) for s in range(16)] + [("hyp", {"shard": s, "n": 2500}) for s in range(8)] + [("overlap", {})]
 
 
 def shrink(signature: str, seed: int):
